@@ -27,9 +27,15 @@ class C08(C06):
         # plural selects of both rule kinds, so that a history alternates the cached formatters
         plural = ("p0 = { $n ->\n [one] one\n [two] two\n [few] few\n *[other] other\n }\n"
                   "p1 = { NUMBER($n, type: \"ordinal\") ->\n [one] st\n [two] nd\n [few] rd\n *[other] th\n }\n")
+        bomb = rng.random() < 0.5
+        if bomb:
+            ten = lambda x: " ".join(["{%s}" % x] * 10)
+            plural += "bz0 = L\nbz1 = %s\nbz2 = %s\nbz3 = %s\nbz = {bz3}\n" % (ten("bz0"), ten("bz1"), ten("bz2"))
         ress = ",".join("%s:%s" % ("a" if (i == 0 or rng.random() < 0.6) else "o", hx((plural if i == 0 else "") + g.resource()))
                         for i in range(nres))
         cfg = g.config()
+        # the caller keeps ONE error list for the whole history ("earlier errors" must not matter)
+        warm_cfg = cfg + (";ev=shared" if rng.random() < 0.6 else "")
         fns = g.fns()
         base = []
         for m in resgen.MSGS:
@@ -51,7 +57,10 @@ class C08(C06):
         nn = rng.choice(["i1", "i2", "i3", "i22", "i4"])
         for k in range(rng.randint(2, 6)):
             reqs.insert(rng.randrange(len(reqs) + 1), "%s:~:%s=%s" % (hx("p%d" % (k % 2)), hx("n"), nn))
-        warm = "fmt %s %s %s %s" % (cfg, ress, fns, ",".join(reqs))
+        if bomb:
+            for k in range(rng.randint(1, 2)):
+                reqs.insert(rng.randrange(len(reqs)), "%s:~:~" % hx("bz"))
+        warm = "fmt %s %s %s %s" % (warm_cfg, ress, fns, ",".join(reqs))
         # every distinct request once on a fresh bundle (a new bundle per request: several bundle cases)
         fresh = []
         for rq in rng.sample(reqs, min(3, len(reqs))):
